@@ -5,8 +5,8 @@
    the same text; [dec] prints event numbers / counts.
    Proved for every state that satisfies [Inv] (counts describe the held events, every held label has an end line) -
    the states C04 proves reachable.  Statements only; proofs in Proofs/C06_*.v.
-   Partial: the per-format row round trip is proved for Oscar2013 and 22-column Oscar2013Extended; for 20/21-column
-   Extended and custom ASCII files it remains the hypothesis [row_rt] of the generic theorems.  JETSCAPE: full (below).  Footers after an event-REMOVING filter: open finding
+   The per-format row round trip is proved for Oscar2013, 20-, 21- and 22-column Oscar2013Extended, custom ASCII files
+   with any duplicate-free list of known columns, and JETSCAPE.  Footers after an event-REMOVING filter: open finding
    C06-footers-after-event-removal (the theorems take the state as it is: they then speak about the footers the
    state holds under its renumbered labels). *)
 From Coq Require Import List String ZArith QArith Bool Arith.
@@ -104,6 +104,27 @@ Theorem C06_row_extended22 :
 Proof. exact row_rt_ext22. Qed.
 Print Assumptions C06_row_extended22.
 
+(* old 20- and 21-column Extended lines: the optional trailing columns are written only when set, and skipped on reading *)
+Theorem C06_row_extended20 :
+  forall tok_float tok_int pdg_valid fmt rnd,
+  (forall f v, is_int_fmt f = false -> tok_float (fmt f v) = Some (rnd f v)) ->
+  (forall v, tok_int (fmt FD v) = Some (rnd FD v)) ->
+  (forall f v, fmt f (rnd f v) = fmt f v) -> (forall f v, numeric (fmt f v) = true) ->
+  forall p vs, has_vals cs_ext20 p vs -> get_slot 22 p = None -> get_slot 23 p = None ->
+  row_rt tok_float tok_int pdg_valid fmt "Oscar2013Extended" [] 20 p.
+Proof. exact row_rt_ext20. Qed.
+Print Assumptions C06_row_extended20.
+
+Theorem C06_row_extended21 :
+  forall tok_float tok_int pdg_valid fmt rnd,
+  (forall f v, is_int_fmt f = false -> tok_float (fmt f v) = Some (rnd f v)) ->
+  (forall v, tok_int (fmt FD v) = Some (rnd FD v)) ->
+  (forall f v, fmt f (rnd f v) = fmt f v) -> (forall f v, numeric (fmt f v) = true) ->
+  forall p vs, has_vals cs_ext21 p vs -> get_slot 23 p = None ->
+  row_rt tok_float tok_int pdg_valid fmt "Oscar2013Extended" [] 21 p.
+Proof. exact row_rt_ext21. Qed.
+Print Assumptions C06_row_extended21.
+
 (* composition, no row hypothesis left: an Oscar2013 object is written, read back, and re-written to the same file *)
 Theorem C06_oscar2013_roundtrip :
   forall tok_float tok_int pdg_valid fmt dec rnd,
@@ -135,6 +156,56 @@ Theorem C06_example :
         smash_footer "0" "7.125" "yes"].
 Proof. exact example_state. Qed.
 Print Assumptions C06_example.
+
+(* custom ASCII files, ANY duplicate-free list of known attribute names in any order: one line round-trips *)
+Theorem C06_row_ascii :
+  forall tok_float tok_int pdg_valid fmt rnd,
+  (forall f v, is_int_fmt f = false -> tok_float (fmt f v) = Some (rnd f v)) ->
+  (forall v, tok_int (fmt FD v) = Some (rnd FD v)) ->
+  (forall f v, fmt f (rnd f v) = fmt f v) -> (forall f v, numeric (fmt f v) = true) ->
+  forall attrs ncols p vs, NoDup attrs -> Forall known attrs -> has_vals (cs_ascii attrs) p vs ->
+  row_rt tok_float tok_int pdg_valid fmt "ASCII" attrs ncols p.
+Proof. exact row_rt_ascii. Qed.
+Print Assumptions C06_row_ascii.
+
+(* composition for custom ASCII objects: written, read back, re-written to the same file *)
+Theorem C06_ascii_roundtrip :
+  forall tok_float tok_int pdg_valid fmt dec rnd,
+  (forall f v, is_int_fmt f = false -> tok_float (fmt f v) = Some (rnd f v)) ->
+  (forall v, tok_int (fmt FD v) = Some (rnd FD v)) ->
+  (forall f v, fmt f (rnd f v) = fmt f v) -> (forall f v, numeric (fmt f v) = true) ->
+  (forall z, numeric (dec z) = true) -> (forall z, (0 <= z)%Z -> tok_int (dec z) = Some (zq z)) ->
+  forall s, Inv s -> os_events s <> [] -> os_format s = "ASCII" -> NoDup (os_attrs s) -> Forall known (os_attrs s) ->
+  oscar_format (nth 0 (os_header s) []) = Ok ("ASCII", os_attrs s) ->
+  kind_scan (nth 0 (os_header s) []) = SOther -> kind_scan (nth 1 (os_header s) []) = SOther ->
+  kind_scan (nth 2 (os_header s) []) = SOther ->
+  footers_std tok_float (os_footers s) (os_counts s) ->
+  Forall (Forall (fun p => exists vs, has_vals (cs_ascii (os_attrs s)) p vs)) (os_events s) ->
+  exists file,
+    write_oscar fmt dec s = Ok file /\
+    load tok_float tok_int pdg_valid None file SelAll
+      = Ok (expected tok_float tok_int pdg_valid (doc_of fmt dec s) "ASCII" (os_attrs s)) /\
+    write_oscar fmt dec (reread tok_float tok_int pdg_valid fmt dec s) = Ok file.
+Proof. exact ascii_roundtrip. Qed.
+Print Assumptions C06_ascii_roundtrip.
+
+(* composition for any Oscar-family format, from the row round trip of the held particles *)
+Theorem C06_oscar_roundtrip :
+  forall tok_float tok_int pdg_valid fmt dec,
+  (forall z, numeric (dec z) = true) -> (forall z, (0 <= z)%Z -> tok_int (dec z) = Some (zq z)) ->
+  forall s, Inv s -> os_events s <> [] ->
+  oscar_format (nth 0 (os_header s) []) = Ok (os_format s, os_attrs s) -> std_format (os_format s) ->
+  kind_scan (nth 0 (os_header s) []) = SOther -> kind_scan (nth 1 (os_header s) []) = SOther ->
+  kind_scan (nth 2 (os_header s) []) = SOther ->
+  footers_std tok_float (os_footers s) (os_counts s) ->
+  Forall (Forall (row_rt tok_float tok_int pdg_valid fmt (os_format s) (os_attrs s) (ncols_of s))) (os_events s) ->
+  exists file,
+    write_oscar fmt dec s = Ok file /\
+    load tok_float tok_int pdg_valid None file SelAll
+      = Ok (expected tok_float tok_int pdg_valid (doc_of fmt dec s) (os_format s) (os_attrs s)) /\
+    write_oscar fmt dec (reread tok_float tok_int pdg_valid fmt dec s) = Ok file.
+Proof. exact oscar_roundtrip_generic. Qed.
+Print Assumptions C06_oscar_roundtrip.
 
 (* ------------------------------------------------------------------ JETSCAPE *)
 (* one JETSCAPE particle line round-trips: the seven printed columns come back rounded, the line prints again the same *)
